@@ -9,20 +9,30 @@ import (
 
 // vPromCount reads the real counter / summary through its protobuf form.
 func vPromCount(x any) int64 {
-	var m dto.Metric
-	switch c := x.(type) {
-	case *prometheus.CounterVec:
-		if err := c.With(prometheus.Labels{}).Write(&m); err != nil {
-			return -1
+	// vectors: sum over all children (one child per label combination)
+	if col, ok := x.(prometheus.Collector); ok {
+		if _, isMetric := x.(prometheus.Metric); !isMetric {
+			ch := make(chan prometheus.Metric, 256)
+			col.Collect(ch)
+			close(ch)
+			var total int64
+			for mt := range ch {
+				var m dto.Metric
+				if mt.Write(&m) != nil {
+					return -1
+				}
+				if m.Counter != nil {
+					total += int64(m.GetCounter().GetValue())
+				}
+				if m.Summary != nil {
+					total += int64(m.GetSummary().GetSampleCount())
+				}
+			}
+			return total
 		}
-		return int64(m.GetCounter().GetValue())
-	case *prometheus.SummaryVec:
-		mm, ok := c.With(prometheus.Labels{}).(prometheus.Metric)
-		if !ok || mm.Write(&m) != nil {
-			return -1
-		}
-		return int64(m.GetSummary().GetSampleCount())
-	case prometheus.Metric:
+	}
+	if c, ok := x.(prometheus.Metric); ok {
+		var m dto.Metric
 		if err := c.Write(&m); err != nil {
 			return -1
 		}
